@@ -89,7 +89,21 @@ class ParseRoles:
             return g.is_pub and g.id not in pids
         v = copy.copy(self)
         v.__dict__['_views'] = {}
-        v.parse_bodies = [self.prog.view(b, keep, tag='parse-' + tag) for b in self.parse_bodies]
+        v.parse_bodies = [self.prog.view(b, keep, tag='parse-' + ('deep' if tag == 'deep-merged' else tag)) for b in self.parse_bodies]
+        if tag == 'deep-merged':
+            # a private parse body that was opened into its single caller is represented there in full: judging it
+            # on its own as well would judge it without the caller's guard (`Operator(op) if is_prefix_op(op) => ..`)
+            opened = {}
+            for vb in v.parse_bodies:
+                for nm in (vb.j.get('inlined') or []) if getattr(vb, 'is_view', False) else []:
+                    opened.setdefault(nm, set()).add(vb.orig_id)
+            kept = []
+            for vb, b in zip(v.parse_bodies, self.parse_bodies):
+                callers = self.prog.callers.get(b.id, set())
+                if not b.is_pub and len(callers) == 1 and opened.get(b.name) and set(callers) <= opened[b.name]:
+                    continue
+                kept.append(vb)
+            v.parse_bodies = kept
         v.view_tag = tag
         cache[tag] = v
         return v
@@ -166,19 +180,36 @@ class ParseRoles:
         return None
 
 
+def _tags(obs):
+    """obligation identities without the body name and without ordinals: what is being decided, not where"""
+    out = set()
+    for o in obs:
+        parts = o.key.split('|')
+        if 'anchor' in o.key or 'floor' in o.key:
+            continue
+        t = '|'.join(parts[:1] + parts[2:]) if len(parts) > 2 else parts[0]
+        out.add(re.sub(r'(#\d+|bb-ord\d+)', '', t))
+    return out
+
+
 def fallback(rule, roles, *args, **kw):
     """run `rule` on the bodies as written; if that leaves a violation, on the shallow and then the deep view
     (same program, helpers / combinator closures inlined); the first clean reading decides"""
+    merged = kw.pop('merged', False)
     first = rule(roles, *args, **kw)
     if not any(o.status == 'violated' for o in first):
         return first
-    for tag in ('shallow', 'deep'):
+    for tag in ('shallow', 'deep') + (('deep-merged',) if merged else ()):
         vr = roles.views(tag)
-        if all(a is b for a, b in zip(vr.parse_bodies, roles.parse_bodies)):
+        if len(vr.parse_bodies) == len(roles.parse_bodies) and all(a is b for a, b in zip(vr.parse_bodies, roles.parse_bodies)):
             continue
         try:
             res = rule(vr, *args, **kw)
         except Exception:
+            continue
+        # coverage: the second reading must decide every obligation the first one saw (a view in which a rule no
+        # longer recognises a builder would otherwise pass vacuously)
+        if not _tags(first) <= _tags(res):
             continue
         if not any(o.status == 'violated' for o in res):
             for o in res:
@@ -332,10 +363,29 @@ class TokenFacts:
 # ----------------------------------------------------------------------------- rules
 
 def rule_wexpect(roles):
-    obs = []
     e = roles.expect
     if e is None:
         return [bad('WEXPECT', 'WEXPECT|anchor', 'anchor lost: no body with signature (&mut Tokenizer, &str) -> Result<()> (the expected-token check)')]
+    first = _rule_wexpect(roles, e)
+    if not any(o.status == 'violated' for o in first):
+        return first
+    # second reading: the comparison may sit in a token helper (`token.is_symbol(expected)`)
+    def keep(g):
+        # open only predicates on the token itself (`token.is_symbol(expected)`); payload renderers stay calls
+        pred = g.arg_count >= 1 and (roles.token_adt or '\0') in g.locals[1]['ty'] and g.locals[0]['ty'] == 'bool'
+        return not pred
+    v = roles.prog.view(e, keep=keep, tag='wexpect')
+    if v is not e:
+        second = _rule_wexpect(roles, v)
+        if not any(o.status == 'violated' for o in second):
+            for o in second:
+                o.what += ' [read with helpers inlined]'
+            return second
+    return first
+
+
+def _rule_wexpect(roles, e):
+    obs = []
     # comparisons between the inspected token's payload and the &str parameter
     cmp_true_edges = []
     kind_problems = []
